@@ -75,6 +75,13 @@ func TestC12(t *testing.T) {
 				strayPod("ns", "unowned-n2", "n2", map[string]string{"app": "agent"}, ""),
 				strayPod("other", "old-n2", "n2", map[string]string{"app": "agent"}, "old")},
 			raw: true, alpha: &w.Alpha{}, budget: 0},
+		// the user ends the declared migration (removes the annotation) while pods of the old DaemonSet still run: from
+		// then on they are unrelated pods
+		{name: "S6-migration-called-off", nodes: []string{"n1", "n2"}, eds: []w.EDSOpt{w.WithAnnotation(v1.ExtendedDaemonSetOldDaemonsetAnnotationKey, "old"), w.WithRolling("1", "", 0, 0)},
+			extra: []client.Object{oldDS("ns", "old", map[string]string{"app": "agent"}),
+				strayPod("ns", "old-n1", "n1", map[string]string{"app": "agent"}, "old"),
+				strayPod("ns", "old-n2", "n2", map[string]string{"app": "agent"}, "old")},
+			raw: true, alpha: &w.Alpha{Annots: []string{"old-daemonset-"}}, budget: 1},
 	}
 	runWorld(t, run, scs, []func(*w.MonCtx){w.MonC12}, 0)
 	requireAntecedents(run, "C12/write")
